@@ -5,7 +5,7 @@
    of threads.  Models: Model.v; contracts as history monitors: Spec.v. *)
 From God Require Import Base.Prelude C18.Conc C18.Spec C18.Model.
 From Coq Require Import Sorting.Permutation.
-From God Require Import C18.ProofsSF C18.ProofsLC C18.ProofsAO C18.ProofsPool C18.ProofsRM C18.ProofsTL C18.ProofsRef C18.ProofsMR.
+From God Require Import C18.ProofsSF C18.ProofsLC C18.ProofsAO C18.ProofsPool C18.ProofsRM C18.ProofsTL C18.ProofsRef C18.ProofsMR C18.ProofsSpin.
 
 (* ---------------------------------------------------------------- SingleFlight *)
 (* every history is accepted by the sharing contract (Spec.sf_mon_step): a call that reports a
@@ -320,6 +320,45 @@ Theorem c18_barrier_exclusive : forall scripts sched t u,
   BAR.inside (BAR.t_pc (BAR.ts s t)) = true -> BAR.inside (BAR.t_pc (BAR.ts s u)) = true -> t = u.
 Proof. exact bar_exclusive. Qed.
 Print Assumptions c18_barrier_exclusive.
+
+(* ---------------------------------------------------------------- SpinLock and DoneChan, contended paths step by step *)
+(* Lock() = for !TryLock() { Gosched() } with every attempt and every yield a separate step: however
+   many goroutines are spinning or arriving when the holder unlocks, there is at most one holder
+   (unless somebody unlocked a lock he did not hold) *)
+Theorem c18_spin_mutex_contended : forall scripts sched,
+  let s := run (SPINL.step true) sched (SPINL.init scripts) in
+  SPINL.misuse s = true \/ (SPINL.lockw s = false /\ SPINL.cs s = []) \/ (SPINL.lockw s = true /\ exists t, SPINL.cs s = [t]).
+Proof. exact SPINLP.spinl_mutex. Qed.
+Print Assumptions c18_spin_mutex_contended.
+
+(* the atomicity of TryLock is what this rests on: "load, observe 0, then store 1" lets two goroutines hold the lock *)
+Theorem c18_spin_load_then_store_refuted :
+  exists scripts sched, let s := run (SPINL.step false) sched (SPINL.init scripts) in SPINL.misuse s = false /\ SPINL.cs s = [1; 0].
+Proof. exact SPINLP.spinl_load_store_refuted. Qed.
+Print Assumptions c18_spin_load_then_store_refuted.
+
+(* Close through sync.Once: once ANY Close call has returned, Done() is closed -- also for the callers
+   that lost the race (they wait for the winner); close(dc.done) runs exactly once *)
+Theorem c18_done_closed_after_any_close : forall scripts sched,
+  let s := run (DONEL.step true) sched (DONEL.init scripts) in
+  (DONEL.returned s = true -> DONEL.closed s = true) /\ DONEL.early s = false /\
+  DONEL.ncloses s = (if DONEL.closed s then 1 else 0).
+Proof. exact DONELP.donel_closed_after_return. Qed.
+Print Assumptions c18_done_closed_after_any_close.
+
+(* ... which a "CAS a flag, the winner closes" Close does not give: the loser returns too early *)
+Theorem c18_done_flag_variant_refuted :
+  exists scripts sched, let s := run (DONEL.step false) sched (DONEL.init scripts) in
+    DONEL.returned s = true /\ DONEL.closed s = false /\ DONEL.early s = true.
+Proof. exact DONELP.donel_flag_refuted. Qed.
+Print Assumptions c18_done_flag_variant_refuted.
+
+(* a Borrow that is woken by a Return and finds the slot free takes it, whatever its timeout
+   (in particular "wait for ever" timeouts): no timeout is reported on that path *)
+Theorem c18_timeout_woken_takes_slot : forall timeout spent e r,
+  TL.loop timeout spent (TL.Signal e true :: r) = Some (0, (spent + e)%Z).
+Proof. exact tl_woken_takes_slot. Qed.
+Print Assumptions c18_timeout_woken_takes_slot.
 
 (* ---------------------------------------------------------------- ManagedResource *)
 (* the current resource is always the latest one generated (generate runs only when there is none, so
